@@ -26,6 +26,7 @@ CONSTANTS MinCols, MaxCols,
           WithNull, WithWrong,   \* offer NULL / wrong-type values
           MaxBad,      \* at most this many refusable cells per row or SET list
           WithUpd,     \* UpdateAll enabled
+          WithUnknown, \* statements naming a column the table does not have (x |-> TRUE in the scenario: column "zz" is added to the list)
           MaxMut,      \* Put / UpdateAll attempts per scenario
           MaxLife,     \* Flush / EvictAll / Restart steps per scenario
           LifeFrom,    \* lifecycle steps only once this many Put / UpdateAll were attempted (0: anywhere)
@@ -127,10 +128,22 @@ DoUpd == /\ WithUpd
                                         ELSE <<[a |-> "upd", k |-> nmut', set |-> items, ok |-> ret'.ok]>>
                        /\ hist' = Append(hist, lastmut'[1])
 
+\* an otherwise valid INSERT / UPDATE whose column list also names "zz"
+DoUnknown ==
+  /\ WithUnknown
+  /\ \E raw \in Prod(schema, Len(schema), {}) :
+       /\ RawOK(schema, raw) /\ BadCount(schema, raw) = 0 /\ FillCols(raw) = {}
+       /\ \/ /\ UnknownColumn("put")
+             /\ lastmut' = <<[a |-> "put", k |-> nmut', row |-> [i \in 1..Len(raw) |-> Strip(raw[i])], ok |-> FALSE, x |-> TRUE]>>
+          \/ /\ Len(Load) >= 1
+             /\ UnknownColumn("upd")
+             /\ lastmut' = <<[a |-> "upd", k |-> nmut', set |-> <<[c |-> 1, v |-> Strip(raw[1]), on |-> TRUE]>>, ok |-> FALSE, x |-> TRUE]>>
+       /\ hist' = Append(hist, lastmut'[1])
+
 MCNext ==
   /\ ret.op # "get"            \* a Get ends the scenario
   /\ \/ /\ nmut < MaxMut
-        /\ (DoPut \/ DoUpd)
+        /\ (DoPut \/ DoUpd \/ DoUnknown)
         /\ UNCHANGED life
      \/ /\ Len(life) < MaxLife
         /\ nmut >= LifeFrom
